@@ -7,7 +7,10 @@ EXTENDS Tsig, Json
 CONSTANTS Lens,        \* stream lengths
           TotalFaults, \* fault actions per exchange
           Regions,     \* tamper regions used
-          NLens        \* renderings of the one message object of a query / response exchange
+          NLens,       \* renderings of the one message object of a query / response exchange
+          Renders      \* subset of {"plain", "edns", "pad", "trunc"}: how the signer's messages are rendered
+                       \* (EDNS OPT before the TSIG, padding, content cut to a size limit with TC set); the
+                       \* MAC must be over what is finally sent whatever the option
 VARIABLES hist, len, nf
 gvars == <<vars, hist, len, nf>>
 AllRegions == SignedRegions \cup UnsignedRegions
@@ -18,8 +21,10 @@ Hh(e) == hist' = Append(hist, e)
 GInit == /\ Init
          /\ len \in (IF kind = "stream" THEN Lens ELSE NLens)
          /\ nf = 0
-         /\ hist = <<[op |-> "start", kind |-> kind, alg |-> skey.alg, hash |-> HashOf(skey.alg), bits |-> MacBits(skey.alg),
-                      minbits |-> MinMacBits(skey.alg), key |-> skey.name, fudge |-> fudge, error |-> serror, len |-> len]>>
+         /\ \E rd \in Renders :
+              hist = <<[op |-> "start", kind |-> kind, alg |-> skey.alg, hash |-> HashOf(skey.alg), bits |-> MacBits(skey.alg),
+                        minbits |-> MinMacBits(skey.alg), key |-> skey.name, fudge |-> fudge, error |-> serror, len |-> len,
+                        render |-> rd]>>
 Fault == nf < TotalFaults /\ nf' = nf + 1
 GSend == \E s \in BOOLEAN : /\ sent < len /\ (sent + 1 = len => s) /\ Send(s)
                             /\ Hh([op |-> "send", signed |-> s]) /\ UNCHANGED <<len, nf>>
